@@ -751,3 +751,8 @@ mod tests {
         assert_eq!(next_fcnt_down(Some(0xFFFF_FFFE), 0), None);
     }
 }
+
+#[cfg(lora_rs_verif)]
+pub(crate) fn verif_next_fcnt_down(last: Option<u32>, wire: u16) -> Option<u32> {
+    next_fcnt_down(last, wire)
+}
